@@ -85,3 +85,23 @@ Theorem C01_byte_level_history : forall t n bk bv bh ops,
     io_run m0 ops = Ok (m', snd (spec_run ∅ ops)) /\
     render s' = Ok (Io.images m') /\ wf_state s' /\ represents s' (fst (spec_run ∅ ops)).
 Proof. exact Io_history_from_create. Qed.
+
+(** HISTORIES WITH TRAVERSALS AND STATISTICS AT BYTE LEVEL (Io_wrun.v): a history may also contain full traversals and the
+    statistics calls, each performed with its real seeks and reads on the three flat files.  From any well-formed state whose
+    images the byte-level map holds: the record-level run does not fail (traversals and statistics terminate on every state),
+    the byte-level run returns the same results call by call, the files stay [render] of the record-level state, and every
+    result is what the ideal map of that moment says (a traversal: a permutation of it with exact hints). *)
+From Aby Require Import Io Io_run Io_wrun.
+Theorem C01_byte_level_histories_with_traversals_and_statistics : forall ops s sp m,
+  wf_state s -> represents s sp -> simg s m -> Forall (wop_wf (kt s)) ops -> wsized s ops ->
+  exists s' m' outs,
+    wstore_run s ops = Ok (s', outs) /\ wio_run m ops = Ok (m', outs) /\ simg s' m' /\ wf_state s' /\
+    represents s' (wspec_run sp ops) /\ kt s' = kt s /\ length outs = length ops.
+Proof. exact wio_run_refines. Qed.
+
+Theorem C01_byte_level_results_are_the_ideal_map_s : forall ops s sp s' outs,
+  wf_state s -> represents s sp -> Forall (wop_wf (kt s)) ops -> wsized s ops ->
+  wstore_run s ops = Ok (s', outs) -> wagree_run sp ops outs.
+Proof. exact wstore_run_agrees. Qed.
+
+Example C01_nonvacuous_whistory := Io_wrun.ex_wrun.
